@@ -185,7 +185,9 @@ func (d Dialer) Dial(ctx context.Context, urlstr string) (conn net.Conn, br *buf
 	} else {
 		// Context could be canceled or its deadline could be exceeded.
 		// Start the interrupter goroutine to handle context cancelation.
-		done := setupContextDeadliner(ctx, conn)
+		// Watch dialctx, not ctx: it is ctx itself, or ctx limited by
+		// d.Timeout, so that the timeout also bounds the handshake.
+		done := setupContextDeadliner(dialctx, conn)
 		defer func() {
 			// Map Upgrade() error to a possible context expiration error. That
 			// is, even if Upgrade() err is nil, context could be already
